@@ -11,6 +11,8 @@ inc/PS/PhaseSpace.hpp they use), read from the clang JSON AST of /repo's working
                    bunch's own measured charge, the centring of the variance (variance calls average first)
   integrateAndNormalize   the order integrate(); normalize()
   the constructor's tail and operator=   the refresh sequence updateXProjection(); updateYProjection(); integrate()
+  createFromProjections   the product of the two projections written to every cell, then the calls that follow
+  the constructor without start data (`data == nullptr`)   gen_ctor_fresh = that branch's member calls + the refresh sequence
 
 The loops are executed symbolically (translate/symloops.py: narrow rules, anything else fails loudly), so that
 harmless rewrites (an explicit accumulation loop instead of std::inner_product, hoisted or renamed locals,
@@ -31,8 +33,9 @@ SETTER = {"_data": "set_data", "_projection": "set_proj", "_filling": "set_fill"
 CONST = {"_filling_set": "e_fset", "_ws": "e_ws"}
 INTM = {"_nmeshcellsX": "nx", "_nmeshcellsY": "ny", "_nbunches": "nb"}
 CALLABLE = {"integrate": 0, "normalize": 0, "average": 1, "variance": 1, "updateXProjection": 0, "updateYProjection": 0,
-            "integrateAndNormalize": 0}
-ORDER = ["updateXProjection", "updateYProjection", "integrate", "normalize", "average", "variance", "integrateAndNormalize"]
+            "integrateAndNormalize": 0, "createFromProjections": 0}
+ORDER = ["updateXProjection", "updateYProjection", "integrate", "normalize", "average", "variance", "integrateAndNormalize",
+         "createFromProjections"]
 
 
 def method(docs, name):
@@ -132,6 +135,61 @@ def call_sequence(body, names):
     return seq
 
 
+def ctor_fresh_sequence(ctor, cbody, names):
+    """member calls of the principal constructor's branch for `data == nullptr` (no start data: the Gaussian start
+    distribution), in order.  Idiom: one `if` on the parameter `data` compared with nullptr; the branch may contain loops
+    whose only member calls are setProjection(..) (they fill `_projection`, which the theorems leave arbitrary) and
+    direct member calls of the translated functions."""
+    pid = [c["id"] for c in kids(ctor) if c.get("kind") == "ParmVarDecl" and c.get("name") == "data"]
+    if len(pid) != 1:
+        raise TranslateError("the principal constructor no longer has a parameter `data`")
+    hits = []
+    for s in kids(cbody):
+        if s.get("kind") != "IfStmt":
+            continue
+        ks = [c for c in s.get("inner", []) if c]
+        if not any(x.get("kind") == "DeclRefExpr" and (x.get("referencedDecl") or {}).get("id") == pid[0] for x in walk(ks[0])):
+            continue
+        c = ks[0]
+        while c.get("kind") in WRAPPERS and len(kids(c)) == 1:
+            c = kids(c)[0]
+        if c.get("kind") != "BinaryOperator" or c.get("opcode") not in ("!=", "==") or \
+                not any(x.get("kind") == "CXXNullPtrLiteralExpr" for x in walk(c)):
+            raise TranslateError("the constructor's test on `data` is not a comparison with nullptr")
+        if c["opcode"] == "!=":
+            br = ks[2] if len(ks) > 2 else None
+        else:
+            br = ks[1]
+        hits.append(br)
+    if len(hits) != 1:
+        raise TranslateError("expected one `if (data != nullptr)` in the principal constructor, found %d" % len(hits))
+    br = hits[0]
+    if br is None:
+        return []
+    seq = []
+    for s in (kids(br) if br.get("kind") == "CompoundStmt" else [br]):
+        x = s
+        while x.get("kind") in WRAPPERS and len(kids(x)) == 1:
+            x = kids(x)[0]
+        if x.get("kind") in ("ForStmt", "CXXForRangeStmt"):
+            for m in walk(x):
+                if m.get("kind") == "CXXMemberCallExpr" and kids(m)[0].get("kind") == "MemberExpr":
+                    base = strip1(kids(kids(m)[0])[0]) if kids(kids(m)[0]) else {}
+                    if base.get("kind") == "CXXThisExpr" and kids(m)[0].get("name") not in ("setProjection", "gaus"):
+                        raise TranslateError("the start-distribution loop of the constructor calls %s" % kids(m)[0].get("name"))
+            continue
+        if x.get("kind") == "CXXMemberCallExpr":
+            callee = kids(x)[0]
+            base = strip1(kids(callee)[0]) if kids(callee) else {}
+            if base.get("kind") == "CXXThisExpr" and callee.get("name") in names:
+                seq.append(callee.get("name"))
+                continue
+        if x.get("kind") in ("NullStmt",):
+            continue
+        raise TranslateError("statement of kind %s in the constructor's branch without start data" % x.get("kind"))
+    return seq
+
+
 def translate():
     docs = ast_of(SRC, "vfps::PhaseSpace::")
     ctx = Ctx()
@@ -225,6 +283,14 @@ def translate():
         out.append("  (* member calls that are direct statements of the %s body, in order *)" %
                    ("principal constructor's" if nm == "ctor_refresh" else "operator='s"))
         out.append("  Definition gen_%s (E : env K) (st : mst K) : mst K := %s." % (nm, t))
+    # ---- the constructor's branch without start data (Gaussian start distribution), followed by the refresh sequence
+    seq_fresh = ctor_fresh_sequence(ctor, cbody[0], names + ("createFromProjections",))
+    t = "st"
+    for c in seq_fresh + seq_ctor:
+        t = "gen_%s E (%s)" % (c, t) if t != "st" else "gen_%s E st" % c
+    out.append("  (* the principal constructor called without start data (data == nullptr), once the projections are set: the member")
+    out.append("     calls of that branch, then the refresh sequence *)")
+    out.append("  Definition gen_ctor_fresh (E : env K) (st : mst K) : mst K := %s." % t)
     head = ["(* GENERATED on every run by translate/moments2coq.py from src/PS/PhaseSpace.cpp and inc/PS/PhaseSpace.hpp.",
             "   Do not edit.  Closed forms of the loops (see translate/symloops.py for the summarisation rules):",
             "   every written member is a total function of the cell coordinates c0 c1 c2.  `_rms` is not modelled. *)",
